@@ -379,6 +379,24 @@ func (c *Ctx) c19Deterministic(i int, hr *HistRun, o *HistOpts, cat []queryTpl, 
 		}
 		return true
 	}
+	// focused rounds: the same (path, key) asked for the latest height in the middle of the next block and, without any
+	// request for another height in between, again right after that block's commit (the height is then a past height)
+	var focus []queryTpl
+	focusRound := func(moment string, at, latest int64, fresh int) bool {
+		if fresh > 0 {
+			focus = focus[:0]
+			for j := 0; j < fresh; j++ {
+				focus = append(focus, cat[rng.Intn(len(cat))])
+			}
+		}
+		for _, q := range focus {
+			if !ask(moment, q, at, latest) {
+				return false
+			}
+		}
+		c.Count("focused-same-height-requeries", len(focus))
+		return true
+	}
 	restartAt := int64(2 + rng.Intn(int(nb)-2))
 	var appHash []byte
 	for bi, b := range hr.Blocks[:nb] {
@@ -397,6 +415,13 @@ func (c *Ctx) c19Deterministic(i int, hr *HistRun, o *HistOpts, cat []queryTpl, 
 			res.Txs = append(res.Txs, dr)
 			if h > 1 && ti == len(b.Txs)/2 {
 				// in the middle of block h: the latest committed state is h-1
+				if h%2 == 0 {
+					if !focusRound("mid-block-focused", h-1, h-1, 25) {
+						return
+					}
+					c.Count("mid-block-queries", 25)
+					continue
+				}
 				if !round("mid-block", h-1, c.N(20, 40)) {
 					return
 				}
@@ -408,7 +433,11 @@ func (c *Ctx) c19Deterministic(i int, hr *HistRun, o *HistOpts, cat []queryTpl, 
 			c.Err(i, "end", err)
 			return
 		}
-		if h > 1 {
+		if h > 1 && h%2 == 0 && len(b.Txs) == 0 {
+			if !focusRound("mid-block-focused", h-1, h-1, 25) { // an empty block has no middle: ask before EndBlock's answer is committed
+				return
+			}
+		} else if h > 1 && h%2 == 1 {
 			if !round("after-endblock", h-1, 8) {
 				return
 			}
@@ -422,6 +451,11 @@ func (c *Ctx) c19Deterministic(i int, hr *HistRun, o *HistOpts, cat []queryTpl, 
 		if a, bb := hr.Results[bi].consensusView(), res.consensusView(); a != bb {
 			c.Violation(i, "query:serving-queries-changes-commit", fmt.Sprintf("history %s block %d: the queried replica diverges from the quiet one (%s)", o.Name, h, diffFirst(a, bb)), hr.replayDoc())
 			return
+		}
+		if h > 1 && h%2 == 0 && len(focus) > 0 {
+			if !focusRound("after-commit-focused", h-1, h, 0) {
+				return
+			}
 		}
 		// like a node with a mempool: the next block's transactions are checked before the queries are asked
 		if bi+1 < int(nb) {
